@@ -422,7 +422,14 @@ func genPoolExpiry(r *rand.Rand, idx int, emit func(string)) {
 		g.update("n7", "good", []string{"n0", "n1"}, 0)
 		g.dump()
 		emit("sleep 1700")
-		g.update("n7", "good", [][]string{{}, {}, {"stranger0"}, {"n7"}, {"n1"}}[r.Intn(5)], 0)
+		if (idx/30)%2 == 1 {
+			// the host checks in again just in time and is still reported: its old record is stale, the host is live
+			g.update("n0", "good", []string{"n7"}, 0)
+			g.dump()
+			g.update("n7", "good", [][]string{{"n0"}, {"n0", "n1"}, {"n0", "n0"}}[r.Intn(3)], 0)
+		} else {
+			g.update("n7", "good", [][]string{{}, {}, {"stranger0"}, {"n7"}, {"n1"}}[r.Intn(5)], 0)
+		}
 		g.dump()
 	}
 	for i := 0; i < 6+r.Intn(14); i++ {
